@@ -403,6 +403,8 @@ func init() {
 		if r.Chance(0.4) {
 			tp.Webseeds = append(tp.Webseeds, WebseedSpec{Name: "w0", Mode: "honest", Honest: true})
 		}
+		tp.LiveTrackers = r.Range(0, 3)
+		tp.K.TrackerMinAnnounceInterval = time.Second
 		tp.YieldP = simrt.Pick(r, []float64{0, 0.05, 0.2, 0.5})
 		tp.YieldSleep = simrt.Pick(r, []time.Duration{3 * time.Millisecond, 50 * time.Millisecond, 300 * time.Millisecond})
 		tp.API = &APISpec{Clients: r.Range(2, 5), Ops: r.Range(20, 120), RPC: r.Chance(0.6), Heavy: r.Chance(0.6), Gap: [2]time.Duration{0, r.Dur(time.Millisecond, time.Second)}}
@@ -545,7 +547,7 @@ func init() {
 		tp.Magnet = r.Chance(0.35)
 		tp.PreSeeded = !tp.Magnet && r.Chance(0.3)
 		for i := 0; i < r.Range(1, 4); i++ {
-			hs := &refbt.HostileSpec{Kind: simrt.Pick(r, []string{"oversize", "garbage", "valid", "valid", "mixed", "mixed", "truncate"}), N: r.Range(1, 200), Max: maxMsg, Nice: r.Chance(0.5)}
+			hs := &refbt.HostileSpec{Kind: simrt.Pick(r, []string{"oversize", "garbage", "valid", "valid", "mixed", "mixed", "truncate", "shortframe"}), N: r.Range(1, 200), Max: maxMsg, Nice: r.Chance(0.5)}
 			b := refbt.Behavior{Fast: r.Chance(0.6), Ext: r.Chance(0.8), HostileSpec: hs, MetaMode: "honest"}
 			ps := PeerSpec{Name: fmt.Sprintf("x%d", i), B: b, Mode: simrt.Pick(r, []string{"dial", "dial", "listen"}), At: r.Dur(0, tp.FaultsStop), Redial: r.Dur(200*time.Millisecond, 5*time.Second), Via: "manual"}
 			tp.Peers = append(tp.Peers, ps)
